@@ -13,7 +13,9 @@
    version 0.  Backends: CDB and RocksDB with v1 keys (b <> RDB2). *)
 From DnsV Require Import Base.Bytes Model.Store Model.LookupV1 Model.Serve Spec.Answer Spec.Rows.
 From DnsV Require Import Proofs.Answer Proofs.Compile Proofs.ZoneCut Proofs.Refused Proofs.NxDomain Proofs.SoaAuth Proofs.AnswerItems Proofs.Referral Proofs.Glue.
+From DnsV Require Import Proofs.V2Store Proofs.V2Corollaries.
 From Coq Require Import Permutation.
+From DnsV Require Import Spec.AnswerExtra Proofs.AuthSections.
 Open Scope N_scope.
 
 (* REFUSED exactly for names outside every zone visible to the client *)
@@ -143,6 +145,150 @@ Theorem C01_zone_cut_sound : forall L recs n z,
 Proof. exact zone_cut_sound. Qed.
 Print Assumptions C01_zone_cut_sound.
 
+(* authoritative answers, remaining sections.  (1) A NON-EMPTY answer comes with an empty authority
+   section (the code adds NS for referrals only).  (2) The additional section is sound: every record
+   of it - taken at its position [pre ++ i :: post] - is an address pick [IPick t ty class cands 1] of
+   family A (1) or AAAA (28) whose owner t is the target of an NS / MX record (or the owner of an HTTPS
+   record) of the answer or authority section ([target_of]), whose (owner, type) is in no section of
+   the message built so far ([has_record ... = false]: nothing already in the message is repeated,
+   hence at most one record per family and target), of which exactly one candidate of positive weight
+   is served ([npick 1 cands = 1]; WHICH one is C11's), and whose candidates are exactly the declared,
+   visible, non-wildcard address records of the lower-cased target (Spec/AnswerExtra.addr_records) *)
+Theorem C01_auth_answer_additional_sound : forall b recs L, wf_recs recs -> length L = 2%nat -> b <> RDB2 ->
+  wf_view L recs = true -> forall q n z ecs max x,
+  wf_name n -> nlen (pack n) <= 255 -> lower_bytes (q_name q) = pack n ->
+  (q_edns q = None \/ q_edns q = Some 0) ->
+  zone_cut L recs n = Some z -> authoritative L recs z = true ->
+  serve b (store_v1 recs) q (LocOk L) ecs max = OReply x ->
+  (item_count (rs_an x) <> 0 -> rs_ns x = []) /\
+  forall pre i post, rs_ex x = pre ++ i :: post ->
+    exists t ty cands,
+      i = IPick t ty (q_class q) cands 1 /\ (ty = 1 \/ ty = 28) /\
+      (exists it, In it (rs_an x ++ rs_ns x) /\ target_of it = Some t) /\
+      has_record (mkMsg (rs_an x) (rs_ns x) pre) t ty = false /\
+      npick 1 cands = 1 /\
+      exists rs, cands = map cand_of rs /\ Permutation rs (addr_records L recs t ty).
+Proof. exact auth_answer_additional_sound_v1. Qed.
+Print Assumptions C01_auth_answer_additional_sound.
+
+(* [extras_sound recs L class an ns ex] (used below) is that same clause for every record of ex *)
+Theorem C01_extras_sound_meaning : forall recs L qc an ns ex, extras_sound recs L qc an ns ex ->
+  forall pre i post, ex = pre ++ i :: post ->
+    exists t ty cands,
+      i = IPick t ty qc cands 1 /\ (ty = 1 \/ ty = 28) /\
+      (exists it, In it (an ++ ns) /\ target_of it = Some t) /\
+      has_record (mkMsg an ns pre) t ty = false /\
+      npick 1 cands = 1 /\
+      exists rs, cands = map cand_of rs /\ Permutation rs (addr_records L recs t ty).
+Proof. exact extras_sound_meaning. Qed.
+Print Assumptions C01_extras_sound_meaning.
+
+(* C01 in one statement, for the label-by-label reader (CDB, RocksDB v1 keys) over the compiled store:
+   whatever serve replies refines what Spec/Answer.spec_response prescribes for the declared records,
+   the lower-cased query name n and the query type, in every response class:
+   - Refused: rcode 5, AA clear, all three sections empty;
+   - Referral z nsr (any type but DS, which the statement leaves open): rcode 0, AA clear, empty answer,
+     authority = the records nsr as NS items of owner z and the query's class, in some order; sound glue;
+   - Answer z nx ans soa: AA set, rcode 3 iff nx, answer = the records ans in some order as
+     [answer_items] (owner as queried, class IN, declared TTL and rdata; addresses as candidate lists
+     with the number served, min(max-answer, positive weights)); with an empty answer exactly one of the
+     SOA records soa in the authority section, otherwise an empty authority section; sound additional
+     section;
+   and in every class the reply echoes ID and question and carries OPT (with the ECS option
+   FindLocation returned) exactly when the query had one.
+   Left open, as in Spec/Answer: order inside a section (the existential permutations), which
+   candidates are drawn (C11), completeness of the additional section of an authoritative answer
+   (for referrals C01_referral_glue gives it exactly), DS at or below a delegation *)
+Theorem C01_response_is_spec : forall b recs L, wf_recs recs -> Forall wf_ns_rdata recs -> length L = 2%nat ->
+  b <> RDB2 -> wf_view L recs = true -> forall q n ecs max x,
+  wf_name n -> nlen (pack n) <= 255 -> lower_bytes (q_name q) = pack n ->
+  (q_edns q = None \/ q_edns q = Some 0) ->
+  serve b (store_v1 recs) q (LocOk L) ecs max = OReply x ->
+  rs_id x = q_id q /\ rs_question x = question_of q /\
+  match spec_response L recs n (q_type q) with
+  | Refused =>
+      rs_rcode x = 5 /\ rs_aa x = false /\ rs_an x = [] /\ rs_ns x = [] /\ rs_ex x = [] /\ rs_opt x = opt_of q ecs
+  | Referral z nsr =>
+      q_type q <> 43 ->
+      rs_rcode x = 0 /\ rs_aa x = false /\ rs_an x = [] /\
+      (exists ord, Permutation ord nsr /\ rs_ns x = map (ns_item (pack z) (q_class q)) ord) /\
+      extras_sound recs L (q_class q) (rs_an x) (rs_ns x) (rs_ex x) /\ rs_opt x = opt_of q ecs
+  | Answer z nx ans soa =>
+      rs_rcode x = (if nx then 3 else 0) /\ rs_aa x = true /\
+      (exists ord, Permutation ord ans /\ rs_an x = answer_items (q_name q) max ord) /\
+      (if item_count (rs_an x) =? 0 then exists r, In r soa /\ rs_ns x = [soa_item (pack z) r] else rs_ns x = []) /\
+      extras_sound recs L (q_class q) (rs_an x) (rs_ns x) (rs_ex x) /\ rs_opt x = opt_of q ecs
+  end.
+Proof. exact response_is_spec_v1. Qed.
+Print Assumptions C01_response_is_spec.
+
+(* ---------------------------------------------------------------- the closest-key reader (RocksDB v2 keys)
+   C02_v2_equals_v1 (Properties/C02.v): under the guards used here the handler over the v2-keyed
+   store [store_v2 recs] returns exactly the outcome of the handler over the v1-keyed store, so every
+   clause above holds for the third backend as well (same statements, serve RDB2 (store_v2 recs)) *)
+Theorem C01_refused_iff_outside_zones_v2 : forall recs L, wf_recs recs -> length L = 2%nat ->
+  wf_view L recs = true -> forall q n ecs max,
+  wf_name n -> nlen (pack n) <= 255 -> lower_bytes (q_name q) = pack n -> (q_edns q = None \/ q_edns q = Some 0) ->
+  (zone_cut L recs n = None <-> serve RDB2 (store_v2 recs) q (LocOk L) ecs max = refused_reply q ecs).
+Proof. exact refused_iff_outside_zones_v2. Qed.
+Print Assumptions C01_refused_iff_outside_zones_v2.
+
+Theorem C01_referral_at_or_below_delegation_v2 : forall recs L, wf_recs recs -> length L = 2%nat ->
+  wf_view L recs = true -> Forall wf_ns_rdata recs -> forall q n z ecs max x,
+  wf_name n -> nlen (pack n) <= 255 -> lower_bytes (q_name q) = pack n ->
+  (q_edns q = None \/ q_edns q = Some 0) -> q_type q <> 43 ->
+  zone_cut L recs n = Some z -> authoritative L recs z = false ->
+  serve RDB2 (store_v2 recs) q (LocOk L) ecs max = OReply x ->
+  rs_aa x = false /\ rs_rcode x = 0 /\ rs_an x = [] /\
+  rs_ns x = map (ns_item (pack z) (q_class q)) (filter is_ns (ordered_at recs L z)) /\
+  Permutation (filter is_ns (ordered_at recs L z)) (of_type 2 (own_records L recs z)).
+Proof. exact referral_v2. Qed.
+Print Assumptions C01_referral_at_or_below_delegation_v2.
+
+Theorem C01_referral_glue_v2 : forall recs L, wf_recs recs -> length L = 2%nat ->
+  wf_view L recs = true -> Forall wf_ns_rdata recs -> forall q n z ecs max x,
+  wf_name n -> nlen (pack n) <= 255 -> lower_bytes (q_name q) = pack n ->
+  (q_edns q = None \/ q_edns q = Some 0) -> q_type q <> 43 ->
+  zone_cut L recs n = Some z -> authoritative L recs z = false ->
+  serve RDB2 (store_v2 recs) q (LocOk L) ecs max = OReply x ->
+  rs_ex x = m_ex (fold_left (glue_step recs L (q_class q)) (map r_rdata (ns_of_cut recs L z))
+                            (mkMsg [] (map (ns_item (pack z) (q_class q)) (ns_of_cut recs L z)) [])).
+Proof. exact referral_glue_v2. Qed.
+Print Assumptions C01_referral_glue_v2.
+
+Theorem C01_nxdomain_iff_nothing_v2 : forall recs L, wf_recs recs -> length L = 2%nat ->
+  wf_view L recs = true -> forall q n z ecs max x,
+  wf_name n -> nlen (pack n) <= 255 -> lower_bytes (q_name q) = pack n ->
+  (q_edns q = None \/ q_edns q = Some 0) ->
+  zone_cut L recs n = Some z -> authoritative L recs z = true ->
+  serve RDB2 (store_v2 recs) q (LocOk L) ecs max = OReply x ->
+  (rs_rcode x = 3 <-> source_records L recs z n = []).
+Proof. exact nxdomain_iff_nothing_v2. Qed.
+Print Assumptions C01_nxdomain_iff_nothing_v2.
+
+Theorem C01_empty_auth_has_soa_v2 : forall recs L, wf_recs recs -> length L = 2%nat ->
+  wf_view L recs = true -> forall q n z ecs max x,
+  wf_name n -> nlen (pack n) <= 255 -> lower_bytes (q_name q) = pack n ->
+  (q_edns q = None \/ q_edns q = Some 0) ->
+  zone_cut L recs n = Some z -> authoritative L recs z = true ->
+  serve RDB2 (store_v2 recs) q (LocOk L) ecs max = OReply x ->
+  rs_aa x = true /\
+  (item_count (rs_an x) = 0 ->
+   exists r, In r (of_type 6 (own_records L recs z)) /\ rs_ns x = [soa_item (pack z) r]).
+Proof. exact empty_auth_has_soa_v2. Qed.
+Print Assumptions C01_empty_auth_has_soa_v2.
+
+Theorem C01_answer_exactly_declared_v2 : forall recs L, wf_recs recs -> length L = 2%nat ->
+  wf_view L recs = true -> forall q n z ecs max x,
+  wf_name n -> nlen (pack n) <= 255 -> lower_bytes (q_name q) = pack n ->
+  (q_edns q = None \/ q_edns q = Some 0) ->
+  zone_cut L recs n = Some z -> authoritative L recs z = true ->
+  serve RDB2 (store_v2 recs) q (LocOk L) ecs max = OReply x ->
+  rs_an x = answer_of (q_name q) (q_type q) max (src_ordered recs L z n) /\
+  Permutation (src_ordered recs L z n) (source_records L recs z n).
+Proof. exact answer_exactly_declared_v2. Qed.
+Print Assumptions C01_answer_exactly_declared_v2.
+
 (* C01_served_is_declared_partial.  Proved above for the v1 reader (CDB, RocksDB v1 keys): the
    REFUSED clause, the NXDOMAIN clause, AA and SOA-on-empty-answer, the exact contents of the answer
    section (own records, else covering wildcard; type or CNAME; TTL, rdata, candidates and number of
@@ -150,8 +296,8 @@ Print Assumptions C01_zone_cut_sound.
    zone-cut walk, row and key round trips.  NOT proved: the additional section of authoritative
    answers (only soundness is demanded), the authority section of a non-empty answer, DS at or below
    a delegation (unconstrained by the statement), the link between [at_keys] of a target and the
-   spec's own_records of that name; and nothing of this for the closest-key (v2) reader, which needs C02's
-   simulation.  The differential run checks all of these clauses on
+   spec's own_records of that name.  The closest-key (v2) reader is covered by the _v2 theorems above
+   through C02's simulation.  The differential run checks all of these clauses on
    every generated file, query, client and backend (Run/Core.v: spec_c01_obs). *)
 
 (* the hypotheses are satisfiable with non-trivial values: a zone z. with a wildcard; the name
